@@ -46,7 +46,7 @@ static char *J_OCT, *J_RSA_PUB, *J_RSA_PRIV, *J_EC_PRIV, *J_EC_PUB, *J_OKP_PRIV,
 static const char J_BAD[] = "{\"kty\":\"RSA\",\"n\":\"AAAA\"}";
 static jwk_set_t *ks_oct, *ks_rsa_priv, *ks_rsa_pub, *ks_ec_priv, *ks_ec_pub, *ks_okp_priv, *ks_okp_pub, *ks_ring;
 static char *T_HS, *T_HS_EXPIRED, *T_HS_BAD, *T_HS384, *T_ES, *T_RS, *T_ED, *T_NONE, *T_HS_KID, *T_PS;
-static char *T_ES_BAD, *T_RS_BAD, *T_PS_BAD, *T_ED_BAD, *T_PS2;
+static char *T_ES_BAD, *T_RS_BAD, *T_PS_BAD, *T_ED_BAD, *T_PS2, *T_HS_WRONGISS;
 static jwk_set_t *ks_pss_pub;   /* right length, one signature bit flipped */
 static const char T_MALFORMED[] = "eyJhbGciOiJIUzI1NiJ9.!!!!.AAAA";
 static const time_t T0 = 1700000000;
@@ -117,6 +117,7 @@ static void fixtures(void)
 	T_HS_KID = hmac_ref("{\"alg\":\"HS256\",\"kid\":\"h1\"}", P, JWT_ALG_HS256, 0);
 	T_HS_EXPIRED = hmac_ref("{\"alg\":\"HS256\"}", "{\"iss\":\"good\",\"exp\":1600000000}", JWT_ALG_HS256, 0);
 	T_HS_BAD = hmac_ref("{\"alg\":\"HS256\"}", P, JWT_ALG_HS256, 1);
+	T_HS_WRONGISS = hmac_ref("{\"alg\":\"HS256\"}", "{\"iss\":\"evil\",\"sub\":\"s\",\"exp\":1700000500}", JWT_ALG_HS256, 0);
 	T_HS384 = hmac_ref("{\"alg\":\"HS384\"}", P, JWT_ALG_HS384, 0);
 	T_ES = sign_ref("{\"alg\":\"ES256\"}", P, "p256a", JWT_ALG_ES256);
 	T_RS = sign_ref("{\"alg\":\"RS256\"}", P, "rsa2048a", JWT_ALG_RS256);
@@ -395,8 +396,8 @@ static void sc_check(trace_t *t, const jwk_item_t *key, jwt_alg_t alg, int with_
 }
 static void sc_check_hs(trace_t *t)
 {
-	const char *toks[] = { T_HS, T_HS_EXPIRED, T_HS_BAD, T_HS384, T_MALFORMED, T_NONE, T_HS };
-	sc_check(t, jwks_item_get(ks_oct, 0), JWT_ALG_HS256, 0, toks, 7);
+	const char *toks[] = { T_HS, T_HS_EXPIRED, T_HS_BAD, T_HS384, T_MALFORMED, T_NONE, T_HS, T_HS_WRONGISS };
+	sc_check(t, jwks_item_get(ks_oct, 0), JWT_ALG_HS256, 0, toks, 8);
 }
 static void sc_check_bad_first(trace_t *t)
 {
@@ -671,7 +672,24 @@ static void judge(int s, long k, const trace_t *f)
 			/* the call reported failure through its documented channel: the application has been told */
 			n_reported++;
 			vf_obs(vf_hash_mix(i, 1));
-			/* ... unless the fault-free run also fails here and the faulty one claims something different, which is fine too */
+			/* ... unless the fault-free run also fails here and the faulty one claims something different, which is fine too.
+			 * What a reported failure never licenses: a later verification on the same object accepting a token that the
+			 * fault-free run rejects (a refused configuration call must not leave the checker weaker than it was) */
+			for (int j = i + 1; j < f->n && j < b->n; j++) {
+				if (strcmp(f->kind[j], "verify") || strcmp(b->kind[j], "verify"))
+					continue;
+				const char *fa = strstr(f->r[j], "-> "), *ba = strstr(b->r[j], "-> ");
+				if (!fa || !ba || (fa - f->r[j]) != (ba - b->r[j]) || strncmp(f->r[j], b->r[j], fa - f->r[j]))
+					continue;
+				if (!strncmp(fa, "-> 0", 4) && strncmp(ba, "-> 0", 4)) {
+					char site[400], key[500];
+					fault_site(site, sizeof site);
+					snprintf(key, sizeof key, "%s|wrong-accept-after-reported-failure", site);
+					vf_violation(key, "scenario '%s', allocation #%ld fails: call %d reported failure [%s]; later call %d gives [%s], fault-free [%s]", SCEN[s].name, k, i,
+						     f->r[i], j, f->r[j], b->r[j]);
+					break;
+				}
+			}
 			return;
 		}
 		/* same call, different result, no failure reported */
